@@ -76,7 +76,7 @@ def _map_of(f, p, at=None):
     if p is None:
         return None
     if at is not None:
-        m0 = re.match(r"^l:(\w+)", p)
+        m0 = re.match(r"^l:([\w$]+)", p)
         if m0:
             for a in f.ancestors(at):
                 if a["k"] == "CXXForRangeStmt" and a.get("loopvar", {}).get("name") == m0.group(1):
@@ -88,7 +88,7 @@ def _map_of(f, p, at=None):
     m = re.match(r"^this\.(\w+)", p)
     if m:
         return m.group(1)
-    m = re.match(r"^l:(\w+)", p)
+    m = re.match(r"^l:([\w$]+)", p)
     if not m:
         return None
     var = m.group(1)
@@ -99,6 +99,13 @@ def _map_of(f, p, at=None):
                     for x in f.descendants(f.s(d["init"])):
                         if x["k"] == "MemberExpr" and x["m"].get("is_field") and x["m"].get("rec") == CLS:
                             return x["m"]["name"]
+                    for x in f.descendants(f.s(d["init"])):
+                        # the container may be named through a reference (a helper's `Map& pending` bound to the member)
+                        if x["k"] == "CXXMemberCallExpr" and x.get("obj"):
+                            op_ = path(f, f.s(x["obj"])) or ""
+                            m2 = re.match(r"^this\.(\w+)$", op_)
+                            if m2:
+                                return m2.group(1)
         if st["k"] == "CXXForRangeStmt" and st.get("loopvar", {}).get("name") == var:
             ri = f.s(st.get("range_init"))
             if ri is not None:
@@ -214,6 +221,10 @@ def fulfill_all(ctx):
                     for x in f.descendants(ri):
                         if x["k"] == "MemberExpr" and x["m"].get("is_field") and x["m"].get("rec") == CLS:
                             mp = x["m"]["name"]
+                    if mp is None:
+                        rp_ = path(f, ri) or ""       # the map named through a reference (closure / helper parameter)
+                        if rp_.startswith("this.") and rp_[5:] in PENDING:
+                            mp = rp_[5:]
                 has_set = any(d["k"] == "CXXMemberCallExpr" and d["callee"]["name"] == "set_value"
                               for d in f.descendants(f.s(st["body"])))
                 if mp in PENDING and has_set:
@@ -314,7 +325,11 @@ def query(ctx):
             ctx.ob(rid, ok, f.where, "isRecognized consults the pending and the used map of its key type", "" if ok else str(finds),
                    fn=f.label, inst=f.qname)
         elif f.name == "finishedWithValue":
-            ok = finds == ["usedPromiseBy" + key]
+            # the maps it touches at all (find + erase(iterator), or erase(key)): the used map of its key type, nothing else
+            touched = sorted({path(f, f.s(st["obj"]))[5:] for st in f.stmts.values() if st["k"] == "CXXMemberCallExpr" and
+                              (path(f, f.s(st["obj"])) or "").startswith("this.") and st["callee"].get("rec", "").startswith("std::map")})
+            ok = touched == ["usedPromiseBy" + key] and (finds == ["usedPromiseBy" + key] or not finds)
+            finds = touched
             ctx.ob(rid, ok, f.where, "finishedWithValue only drops a completed entry", "" if ok else str(finds), fn=f.label, inst=f.qname)
         elif f.name == "getFuture":
             gf = [st for st in f.stmts.values() if st["k"] == "CXXMemberCallExpr" and st["callee"]["name"] == "get_future"]
